@@ -80,6 +80,49 @@ pub struct RtcAnswer {
     pub sdp: String,
 }
 
+/// Deepest nesting of JSON arrays/objects accepted in a message. Valid messages need 4.
+#[cfg(feature = "tungstenite")]
+const MAX_JSON_NESTING: usize = 32;
+
+/// Check that arrays/objects in JSON text are not nested deeper than
+/// MAX_JSON_NESTING.
+///
+/// Deserializing the untagged message enums recurses once per nesting level
+/// without any limit, so a deeply nested message would overflow the stack.
+#[cfg(feature = "tungstenite")]
+pub(crate) fn json_nesting_within_limit(bytes: &[u8]) -> bool {
+    let mut depth = 0usize;
+    let mut in_string = false;
+    let mut escaped = false;
+
+    for byte in bytes {
+        if in_string {
+            if escaped {
+                escaped = false;
+            } else if *byte == b'\\' {
+                escaped = true;
+            } else if *byte == b'"' {
+                in_string = false;
+            }
+        } else {
+            match byte {
+                b'"' => in_string = true,
+                b'[' | b'{' => {
+                    depth += 1;
+
+                    if depth > MAX_JSON_NESTING {
+                        return false;
+                    }
+                }
+                b']' | b'}' => depth = depth.saturating_sub(1),
+                _ => (),
+            }
+        }
+    }
+
+    true
+}
+
 fn serialize_20_bytes<S>(data: &[u8; 20], serializer: S) -> Result<S::Ok, S::Error>
 where
     S: Serializer,
